@@ -27,8 +27,8 @@ CHECKS = {
     ),
     "C03": dict(
         level="exploration",
-        technique="deviation-bounded enumeration (k<=1 quick, k<=2 thorough) of files produced by independent writers for 21 formats (incl. FCHK, WFN, WFX, MWFN with orbital values evaluated from the file tables, GAMESS punch, QCSchema JSON, ORCA output) + exhaustive (budgeted) single-token metamorphic substitution on generated and corpus files of all format modules, on the real load_one/load_many",
-        text="Independent writers following the public layouts (FCHK, WFN, WFX, MWFN, GAMESS punch, QCSchema JSON, ORCA output, XYZ, extXYZ, PDB, MOL2, SDF, GRO, CRD, POSCAR, CHGCAR, LOCPOT, cube, Gaussian input, FCIDUMP, Gaussian log) with counters crossing their widths, column-filling/touching "
+        technique="deviation-bounded enumeration (k<=1 quick, k<=2 thorough) of files produced by independent writers for 22 formats (incl. FCHK, WFN, WFX, MWFN with orbital values evaluated from the file tables, GAMESS punch, QCSchema JSON, ORCA and Q-Chem output) + exhaustive (budgeted) single-token metamorphic substitution on generated and corpus files of all format modules, on the real load_one/load_many",
+        text="Independent writers following the public layouts (FCHK, WFN, WFX, MWFN, GAMESS punch, QCSchema JSON, ORCA output, Q-Chem output, XYZ, extXYZ, PDB, MOL2, SDF, GRO, CRD, POSCAR, CHGCAR, LOCPOT, cube, Gaussian input, FCIDUMP, Gaussian log) with counters crossing their widths, column-filling/touching "
         "fields, negative and wide values, every bond type, block boundaries (100+ Hessian row labels, 5-column blocks), name-labelled rows in permuted order, header variants; every loaded attribute compared with the model. Metamorphic: each uniquely locatable numeric token replaced by another value of the same width; "
         "the attribute element that held it must take the new value under the format's unit map.",
         note="hand-typed CODATA factors (5e-9 relative slack for CODATA releases); Molden/Molekel layouts by C05's writers; MWFN and the program logs (GAMESS, ORCA, Q-Chem, CP2K) by the metamorphic part",
